@@ -49,7 +49,8 @@ class Failure:
 class Ctx:
     """Accumulates what a run (or a shard of it) covered and what it found."""
 
-    MAX_SAMPLES = 14
+    MAX_SAMPLES = 24
+    PER_STRATUM = 3
     KEEP_PER_BUCKET = 4
 
     def __init__(self, prop, tier, seed, known=None):
@@ -60,7 +61,7 @@ class Ctx:
         self.classes = collections.Counter()
         self.rejected = collections.Counter()
         self.excluded_known = collections.Counter()
-        self.samples = []  # heap of (-rank, canon) -> evenly drawn sample of non-trivial cases
+        self.samples = {}  # stratum -> heap of (-rank, canon): evenly drawn sample of non-trivial cases
         self.buckets = {}  # bucket -> {"count": n, "cases": [Failure dicts, smallest first]}
         self.exhaustive = {}
         self.notes = []
@@ -69,7 +70,7 @@ class Ctx:
         self._current = None  # failures of the case being judged (used by the hypothesis driver)
 
     # -- bookkeeping -------------------------------------------------------------------------
-    def count(self, case, nontrivial, classes=(), n=1, sample=None):
+    def count(self, case, nontrivial, classes=(), n=1, sample=None, stratum=""):
         """Register one judged case.  ``case`` identifies it (distinctness), ``sample`` is what is
         written out if the case is drawn as an evidence sample (defaults to the case itself)."""
         self.evaluations += n
@@ -81,10 +82,11 @@ class Ctx:
                 self.nontrivial.add(d)
                 s = canon(case if sample is None else sample)
                 rank = int.from_bytes(d, "big")
-                if len(self.samples) < self.MAX_SAMPLES:
-                    heapq.heappush(self.samples, (-rank, s))
-                elif -rank > self.samples[0][0]:
-                    heapq.heapreplace(self.samples, (-rank, s))
+                heap = self.samples.setdefault(stratum, [])
+                if len(heap) < self.PER_STRATUM:
+                    heapq.heappush(heap, (-rank, s))
+                elif -rank > heap[0][0]:
+                    heapq.heapreplace(heap, (-rank, s))
 
     def reject(self, exc):
         self.rejected[type(exc).__name__ if isinstance(exc, BaseException) else str(exc)] += 1
@@ -133,13 +135,15 @@ class Ctx:
         self.classes.update(d["classes"])
         self.rejected.update(d["rejected"])
         self.excluded_known.update(d["excluded_known"])
-        for item in d["samples"]:
-            if item in self.samples:
-                continue
-            if len(self.samples) < self.MAX_SAMPLES:
-                heapq.heappush(self.samples, item)
-            elif item[0] > self.samples[0][0]:
-                heapq.heapreplace(self.samples, item)
+        for stratum, items in d["samples"].items():
+            heap = self.samples.setdefault(stratum, [])
+            for item in items:
+                if item in heap:
+                    continue
+                if len(heap) < self.PER_STRATUM:
+                    heapq.heappush(heap, item)
+                elif item[0] > heap[0][0]:
+                    heapq.heapreplace(heap, item)
         for k, b in d["buckets"].items():
             mine = self.buckets.setdefault(k, {"count": 0, "cases": []})
             mine["count"] += b["count"]
